@@ -481,6 +481,12 @@ def run(tier, only=None):
         R.case(["multisec", r["k"]], True, sample=r["case"] if r["k"] % 5 == 0 else None, section="multisection")
         for sig, p in r["bad"]:
             R.violation(sig, {"k": r["k"], "case": r["case"], "detail": p})
+    from .. import multisec
+
+    for r in check_exc(pmap(multisec.reject_job, range(6 if tier == "quick" else 60))):
+        R.case(["multisec_ground_nosym", r["k"]], True, sample=r["case"] if r["k"] == 0 else None, section="multisection")
+        for sig, p in r["bad"]:
+            R.violation(sig, {"k": r["k"], "case": r["case"], "detail": p})
     R.assume("malformed variants: every subset of at most two defects of the documented dictionaries (mesh dict, surface dict per model kind, multi-section lists)", "two Problems: an aerodynamic (2 surfaces, rotational) and an aerostructural (tube) one, compared bit for bit (<= 1e-14) with the same Problem run alone")
     return R.finish({"exhaustive": True, "variants": len(terms), "interleavings": len(hs)})
 
